@@ -26,7 +26,8 @@ REQUIRED_THEOREMS = [
                      'Properties.C04.flow_samples_follow_logprob', 'Properties.C04.flow_samples_follow_logprob_on', 'Properties.C04.conditional_flow_samples_follow_logprob', 'Properties.C04.flow_block_follows_conditional_density', 'Properties.C04.rq_flow_salp_consistent',
     "Properties.C04.flowSalpExec_pairing", "Properties.C04.flowSalpExec_consistent",
     "Properties.C04.roundTripStage_cdf_short_false", "Properties.C04.roundTrip_couplingStage", "Properties.C04.roundTrip_couplingStage_affine", "Properties.C04.roundTrip_couplingStage_additive", "Properties.C04.roundTrip_couplingStage_rqTails", "Properties.C04.roundTrip_compStage", "Properties.C04.roundTrip_nonlinStage_exp", "Properties.C04.roundTrip_nonlinStage_affine", "Properties.C04.roundTrip_nonlinStage_leakyRelu", "Properties.C04.roundTrip_nonlinStage_tanh", "Properties.C04.roundTrip_cdfStage_rqTails", "Properties.C04.flowSalpExec_consistent_on", "Properties.C04.flowSalpExec_consistent_coupling", "Properties.C04.flowSalpExec_consistent_coupling_affine", "Properties.C04.flowSalpExec_consistent_coupling_additive", "Properties.C04.flowSalpExec_consistent_coupling_rqTails",
-    "Properties.C04.roundTrip_arStage", "Properties.C04.roundTrip_arStage_affine", "Properties.C04.roundTrip_arStage_rq", "Properties.C04.roundTrip_arStage_rqTails", "Properties.C04.flowSalpExec_consistent_ar", "Properties.C04.flowSalpExec_consistent_ar_affine", "Properties.C04.flowSalpExec_consistent_ar_rq", "Properties.C04.flowSalpExec_consistent_ar_rqTails",]
+    "Properties.C04.roundTrip_arStage", "Properties.C04.roundTrip_arStage_affine", "Properties.C04.roundTrip_arStage_rq", "Properties.C04.roundTrip_arStage_rqTails", "Properties.C04.flowSalpExec_consistent_ar", "Properties.C04.flowSalpExec_consistent_ar_affine", "Properties.C04.flowSalpExec_consistent_ar_rq", "Properties.C04.flowSalpExec_consistent_ar_rqTails",
+    "Properties.C04.roundTrip_permStage", "Properties.C04.roundTrip_actStage", "Properties.C04.roundTrip_bnEvalStage", "Properties.C04.roundTrip_bnEvalStage_of_eps_pos", "Properties.C04.roundTrip_luStage", "Properties.C04.roundTrip_qrStage", "Properties.C04.roundTrip_svdStage", "Properties.C04.roundTrip_hhStage", "Properties.C04.roundTrip_naiveStage", "Properties.C04.roundTrip_nonlinStage_sigmoid", "Properties.C04.roundTrip_nonlinStage_logit", "Properties.C04.roundTrip_nonlinStage_cauchy", "Properties.C04.roundTrip_nonlinStage_cauchyInverse", "Properties.C04.roundTrip_nonlinStage_logTanh", "Properties.C04.roundTrip_glow", "Properties.C04.rowWise_glowFwd", "Properties.C04.rowWise_glowInv", "Properties.C04.flowSalpExec_consistent_glow", "Properties.C04.flowSalpExec_consistent_glow_block",]
 RULE = ("(a) tagged: Flow(tag transform, tag base[, tag embedding]) and the default Distribution.sample_and_log_prob on integer-tagged "
         "tensors for R in 1..5 context rows (and none) x n in 1..7 x embedding on/off x {sample_and_log_prob, sample}; every output "
         "entry decodes to (noise draw, context row) pairs compared exactly with the Lean model; (b) seeded: every flow configuration "
